@@ -36,6 +36,23 @@ fn shape(rng: &mut Rng, ident: usize) -> RecSpec {
     RecSpec { ident, seq: *rng.pick(&[1u64, 2, 2, 3, 5, 100, 101]), udp4, udp6, size: 0 }
 }
 
+/// The running lookup, as far as the harness can follow it from outside.
+struct Lookup {
+    /// the records the query holds (`untrusted_enrs`), in the order the service scans them: the table's
+    /// entries at the start (by distance to the target), then the records of accepted NODES answers
+    /// whose node id was new to the list
+    untrusted: Vec<usize>,
+    /// false: the list above is not known exactly any more
+    exact: bool,
+    /// every record the query may hold (a superset of `untrusted`)
+    maybe: Vec<usize>,
+    /// the candidates the query has learnt of: the 16 entries closest to the target at the start, then
+    /// the ids reported to it with accepted answers
+    candidates: Vec<K32>,
+    /// the nodes a FINDNODE of this lookup was addressed to
+    contacted: BTreeSet<K32>,
+}
+
 struct Ctx<'a, 'b> {
     a: Svc,
     recs: Recs<'a>,
@@ -45,6 +62,11 @@ struct Ctx<'a, 'b> {
     local: usize,
     ip_limit: bool,
     outstanding: Vec<Outstanding>,
+    /// answers of the service to who-are-you queries (filled by `absorb`)
+    who_answers: Vec<(NodeAddress, Option<Enr>)>,
+    lookup: Option<Lookup>,
+    /// a lookup was left running: what the queries hold is not known any more
+    inexact: bool,
     steps: Vec<String>,
     failures: Vec<(String, String)>,
     now: u64,
@@ -80,19 +102,192 @@ impl<'a, 'b> Ctx<'a, 'b> {
     fn absorb(&mut self) -> Vec<usize> {
         let mut new = vec![];
         for m in self.a.drain() {
-            if let HandlerIn::Request(contact, r) = m {
-                let ident = self.ident_of(&contact.node_id());
-                let (kind, distances) = match &r.body {
-                    RequestBody::Ping { .. } => (ReqKind::Ping, vec![]),
-                    RequestBody::FindNode { distances } if distances == &vec![0] => (ReqKind::EnrRequest, distances.clone()),
-                    RequestBody::FindNode { distances } => (ReqKind::FindNode, distances.clone()),
-                    _ => continue,
-                };
-                new.push(self.outstanding.len());
-                self.outstanding.push(Outstanding { id: r.id.clone(), ident, addr: contact.node_address(), kind, distances });
+            match m {
+                HandlerIn::Request(contact, r) => {
+                    let ident = self.ident_of(&contact.node_id());
+                    let (kind, distances) = match &r.body {
+                        RequestBody::Ping { .. } => (ReqKind::Ping, vec![]),
+                        RequestBody::FindNode { distances } if distances == &vec![0] => (ReqKind::EnrRequest, distances.clone()),
+                        RequestBody::FindNode { distances } => (ReqKind::FindNode, distances.clone()),
+                        _ => continue,
+                    };
+                    if kind == ReqKind::FindNode {
+                        self.lookup_request(&contact);
+                    }
+                    new.push(self.outstanding.len());
+                    self.outstanding.push(Outstanding { id: r.id.clone(), ident, addr: contact.node_address(), kind, distances });
+                }
+                HandlerIn::WhoAreYou(r, e) => self.who_answers.push((r.0.clone(), e)),
+                _ => {}
             }
         }
         new
+    }
+
+    fn ri_of(&self, e: &Enr) -> Option<usize> {
+        match self.recs.vid_of(e) {
+            0 => None,
+            v => Some(v as usize - 1),
+        }
+    }
+
+    /// A lookup is about to be started: the query copies the records of all table entries, ordered by
+    /// distance to the target; its first candidates are the 16 closest of them.
+    fn lookup_started(&mut self, target: &K32) {
+        let snap = snapshot(&self.a.s.kbuckets.read());
+        let mut entries: Vec<(K32, K32, Option<usize>)> = snap.iter().filter(|x| !x.2).map(|(k, e, _)| (xor(k, target), *k, self.ri_of(e))).collect();
+        entries.sort();
+        let exact = entries.iter().all(|x| x.2.is_some()) && !self.inexact;
+        let untrusted: Vec<usize> = entries.iter().filter_map(|x| x.2).collect();
+        self.lookup = Some(Lookup {
+            maybe: untrusted.clone(),
+            untrusted,
+            exact,
+            candidates: entries.iter().take(16).map(|x| x.1).collect(),
+            contacted: BTreeSet::new(),
+        });
+        progress_lookup(true);
+        progress("lookup started");
+    }
+
+    /// The lookup's future was polled after the last event: `Some(n)`: it has handed n records to the
+    /// caller; `None`: it is still running (its query stays in the service's pool).
+    fn lookup_ended(&mut self, result: Option<usize>) {
+        let lk = match self.lookup.take() {
+            Some(lk) => lk,
+            None => return,
+        };
+        match result {
+            Some(n) => {
+                progress_lookup(false);
+                progress("lookup ended");
+                // C10: "If fewer than k nodes are returned and the lookup was not cut off by the query
+                // timeout, every candidate it learned of was contacted" (the query timeout runs on
+                // std::time::Instant: it never elapses inside a case). Contacted = a FINDNODE for the
+                // candidate was handed to the handler.
+                if n < 16 {
+                    let missed = lk.candidates.iter().filter(|k| !lk.contacted.contains(*k)).count();
+                    if missed > 0 {
+                        self.failures.push((
+                            "C10".into(),
+                            format!("a lookup ended with {} (fewer than 16) results without a timeout although {} of the {} candidates it had learnt of were never sent a request", n, missed, lk.candidates.len())
+                                .chars()
+                                .map(|c| if c.is_ascii_digit() { '#' } else { c })
+                                .collect(),
+                        ));
+                    }
+                    self.hist.add("c12:lookup_short_result_all_candidates_checked");
+                }
+            }
+            None => {
+                self.inexact = true;
+            }
+        }
+    }
+
+    /// A FINDNODE of a lookup was handed to the handler. The record it is addressed with is the
+    /// service's current knowledge of that peer (`find_enr`): for a table entry the stored record - never
+    /// an older copy a query still holds or a peer replayed (C12: a record learnt from the network
+    /// replaces the stored one only with a strictly higher sequence number; the handler opens the session
+    /// with the record it is given and reports it back as the session's record).
+    fn lookup_request(&mut self, contact: &NodeContact) {
+        let id = contact.node_id().raw();
+        let stored = snapshot(&self.a.s.kbuckets.read()).into_iter().find(|(k, _, p)| *k == id && !*p).map(|x| x.1);
+        if let Some(lk) = self.lookup.as_mut() {
+            lk.contacted.insert(id);
+        }
+        let e = match contact.enr() {
+            Some(e) => e,
+            None => return,
+        };
+        if e.node_id().raw() != id {
+            self.failures.push(("C01".into(), "a lookup request for node X was addressed with the record of another node".into()));
+        }
+        match stored {
+            Some(r) => {
+                if r != e {
+                    self.failures.push((
+                        "C12".into(),
+                        format!("a lookup request to a table entry was addressed with a record of that node (seq {}) that is not the stored one (seq {})", e.seq(), r.seq()),
+                    ));
+                }
+            }
+            None => {
+                // not an entry: the first record of that node the lookup holds (harness-side tracking is
+                // validated here, a disagreement is not a property violation)
+                let ri = self.ri_of(&e);
+                if let Some(lk) = self.lookup.as_mut() {
+                    if lk.exact {
+                        let first = lk.untrusted.iter().find(|r| self.recs.idents[self.recs.list[**r].spec.ident].id == id).cloned();
+                        if first != ri || ri.is_none() {
+                            lk.exact = false;
+                            self.hist.add("c12:observation_lookup_record_tracking_disagrees");
+                        }
+                    }
+                }
+            }
+        }
+    }
+
+    /// What `Service::discovered` does with the records of an accepted NODES answer to a request of the
+    /// running lookup, re-stated from its description: the local record is skipped; a record that passes
+    /// the table filter and is contactable is kept (after updating a stored older record; if the routing
+    /// table refuses that update it is dropped); the responder's own record is not reported; a kept
+    /// record is added to the query's list unless the list has a record of that node already.
+    fn track_discovered(&mut self, before: &Snapshot, src: &K32, offered: &[usize]) {
+        let mut lk = match self.lookup.take() {
+            Some(lk) => lk,
+            None => return,
+        };
+        let after = snapshot(&self.a.s.kbuckets.read());
+        let local_id = self.idents[self.local].id;
+        let mut cur: HashMap<K32, Option<Enr>> = HashMap::new();
+        for (pos, ri) in offered.iter().enumerate() {
+            lk.maybe.push(*ri);
+            let e = self.recs.list[*ri].enr.clone();
+            let id = e.node_id().raw();
+            if id == local_id {
+                continue;
+            }
+            let stored = cur.entry(id).or_insert_with(|| before.iter().find(|x| x.0 == id).map(|x| x.1.clone())).clone();
+            let newer = stored.as_ref().map(|o| o.seq() < e.seq()).unwrap_or(false);
+            let keep;
+            if (self.filter)(&e) && contactable(self.mode, &e).is_some() {
+                if newer {
+                    // without IP limiting the table accepts every update of a stored record
+                    let accepted = if !self.ip_limit {
+                        true
+                    } else if offered[pos + 1..].iter().any(|r| self.recs.id_of(*r) == id) {
+                        lk.exact = false; // the intermediate table is not visible from outside
+                        true
+                    } else {
+                        after.iter().any(|x| x.0 == id && x.1 == e)
+                    };
+                    if accepted {
+                        cur.insert(id, Some(e.clone()));
+                    } else {
+                        cur.insert(id, after.iter().find(|x| x.0 == id).map(|x| x.1.clone()));
+                    }
+                    keep = accepted;
+                } else {
+                    keep = true;
+                }
+            } else {
+                if newer {
+                    cur.insert(id, None);
+                }
+                keep = false;
+            }
+            if keep && id != *src {
+                if !lk.untrusted.iter().any(|r| self.recs.id_of(*r) == id) {
+                    lk.untrusted.push(*ri);
+                }
+                if lk.exact && !lk.candidates.contains(&id) {
+                    lk.candidates.push(id);
+                }
+            }
+        }
+        self.lookup = Some(lk);
     }
 
     /// The pending timeout of a bucket's candidate elapses (hook; `None`: no timeout elapses) and the
@@ -320,8 +515,13 @@ async fn ip_limit_opening(c: &mut Ctx<'_, '_>) {
         c.hist.add("c12:opening_ended_candidate_not_pending");
         return;
     }
+    // who-are-you queries about a node of the full bucket nobody knows, the candidate, an entry
+    if big.len() >= 18 {
+        bucket_who_queries(c, cand, big[17], big[0]).await;
+    }
     // 4. a lookup for the candidate's id: the first queried peer answers with a newer record of the
     // candidate (the first distance a lookup requests from a peer is the peer's distance to the target)
+    c.lookup_started(&cand_id);
     let handle = tokio::spawn(c.a.s.discv5.find_node(NodeId::new(&cand_id)));
     settle().await;
     let mut queue = c.absorb();
@@ -339,6 +539,7 @@ async fn ip_limit_opening(c: &mut Ctx<'_, '_>) {
             let _ = c.a.events();
             c.outstanding[oi].kind = ReqKind::Ping; // consumed (never used again)
             c.outstanding[oi].id = RequestId(vec![]);
+            c.track_discovered(&before, &src_id, &[ri]);
             queue.extend(c.absorb());
             let vid = c.recs.list[ri].vid;
             c.hist.add("c12:op_discovered");
@@ -386,12 +587,7 @@ async fn ip_limit_opening(c: &mut Ctx<'_, '_>) {
             c.record(&before, format!("XFailure {}", coq_hex(&src_id)), vec![], "failure", None, &[]);
         }
     }
-    settle().await;
-    if !handle.is_finished() {
-        c.hist.add("c12:opening_lookup_left_running");
-        handle.abort();
-    }
-    c.outstanding.retain(|o| !o.id.0.is_empty());
+    end_lookup(c, handle).await;
     if !answered {
         c.hist.add("c12:opening_ended_no_lookup_request");
         return;
@@ -406,6 +602,465 @@ async fn ip_limit_opening(c: &mut Ctx<'_, '_>) {
         Some((_, _, true)) => "c12:opening_candidate_still_pending",
         None => "c12:opening_candidate_dropped",
     });
+}
+
+/// A record for the scripted openings: contactable in `mode`, an IPv4 address (where it has one) in a
+/// /24 of its own (`n`), so that no IP limit is ever met.
+fn opening_rec(mode: IpMode, n: usize, ident: usize, seq: u64) -> RecSpec {
+    let v4 = ([10, 16 + n as u8, 0, (ident % 250) as u8 + 1], 30303u16);
+    let v6 = v6_host(ident);
+    let (udp4, udp6) = match mode {
+        IpMode::Ip4 => (Some(v4), None),
+        IpMode::Ip6 => (None, Some(v6)),
+        IpMode::DualStack => {
+            if n % 2 == 0 {
+                (None, Some(v6))
+            } else {
+                (Some(v4), None)
+            }
+        }
+    };
+    RecSpec { ident, seq, udp4, udp6, size: 0 }
+}
+
+/// The handler asks who node `ident` is (a packet it cannot decrypt arrived in that node's name from
+/// `sock`): `HandlerOut::WhoAreYou`. The service's answer is the record the handler will verify a
+/// record-less handshake with (`Challenge.remote_enr`), so
+///  - it is a record of that very node (C01: only the holder of X's key is treated as X);
+///  - for a table entry it is the stored record, not an older copy a lookup holds (C12);
+///  - a node known neither to the table nor to a running lookup gets none, whatever else the service is
+///    doing with the address the packet came from (C01).
+/// One model step (`XWho`, Model.Admission.find_enr).
+async fn who_are_you(c: &mut Ctx<'_, '_>, ident: usize, sock: SocketAddr, tag: &str) {
+    if !who_predictable(c, ident) {
+        c.hist.add("c12:op_whoareyou_skipped_records_of_lookups_not_known");
+        return;
+    }
+    let id = c.idents[ident].id;
+    let before = snapshot(&c.a.s.kbuckets.read());
+    c.who_answers.clear();
+    let na = NodeAddress { socket_addr: sock, node_id: NodeId::new(&id) };
+    let mut nonce = [0u8; 12];
+    nonce[..8].copy_from_slice(&(c.steps.len() as u64).to_be_bytes());
+    c.a.inject(HandlerOut::WhoAreYou(discv5::verif::handler::make_whoareyou_ref(na.clone(), nonce))).await;
+    c.absorb();
+    let answers: Vec<Option<Enr>> = c.who_answers.drain(..).filter(|(a, _)| *a == na).map(|x| x.1).collect();
+    let after = snapshot(&c.a.s.kbuckets.read());
+    let stored = after.iter().find(|(k, _, p)| *k == id && !*p).map(|x| x.1.clone());
+    // the records of that node the running lookup holds
+    let (held, maybe): (Vec<usize>, Vec<usize>) = match &c.lookup {
+        Some(lk) => (
+            lk.untrusted.iter().cloned().filter(|r| c.recs.id_of(*r) == id).collect(),
+            lk.maybe.iter().cloned().filter(|r| c.recs.id_of(*r) == id).collect(),
+        ),
+        None => (vec![], vec![]),
+    };
+    let obs = match answers.as_slice() {
+        [None] => 0,
+        [Some(e)] => match c.recs.vid_of(e) {
+            0 => 999_998,
+            v => v,
+        },
+        _ => 999_999, // not answered (or more than once)
+    };
+    if let [Some(e)] = answers.as_slice() {
+        if e.node_id().raw() != id {
+            // C01: only the holder of X's key is treated as X; C02: what is delivered as coming from X was
+            // sealed by X (the session of that handshake delivers the other node's messages as X's)
+            c.failures.push((
+                "C01".into(),
+                "the service answered a who-are-you query about node X with the record of another node (a handshake in X's name would be verified with that node's key)".into(),
+            ));
+            c.failures.push((
+                "C02".into(),
+                "the service named the record of another node as the known record of node X in a who-are-you answer (the session of a handshake verified with it delivers that node's messages as coming from X)".into(),
+            ));
+        } else {
+            match &stored {
+                Some(r) => {
+                    if r != e {
+                        c.failures.push((
+                            "C12".into(),
+                            format!("the record of a table entry handed to the handler for a handshake (seq {}) is not the stored one (seq {}): the session would be reported with it and replace the stored record", e.seq(), r.seq()),
+                        ));
+                    }
+                }
+                None => {
+                    if !c.inexact && !maybe.iter().any(|r| &c.recs.list[*r].enr == e) {
+                        c.failures.push((
+                            "C01".into(),
+                            "the service answered a who-are-you query with a record although the node is neither a table entry nor known to a running lookup".into(),
+                        ));
+                    }
+                }
+            }
+        }
+    }
+    c.hist.add(&format!(
+        "c12:op_whoareyou_{}_{}",
+        tag,
+        match (answers.as_slice(), &stored) {
+            ([None], _) => "no_record",
+            ([Some(_)], Some(_)) => "table_record",
+            ([Some(_)], None) => "lookup_record",
+            _ => "unanswered",
+        }
+    ));
+    let qvs: Vec<String> = held.iter().map(|r| c.recs.list[*r].vid.to_string()).collect();
+    c.record(&before, format!("XWho {} {}", coq_hex(&id), coq_list(&qvs)), vec![obs], "whoareyou", None, &[]);
+}
+
+/// May the model's answer to a who-are-you query about `ident` be computed (the table decides, or the
+/// records held by the running lookup are known exactly)?
+fn who_predictable(c: &Ctx<'_, '_>, ident: usize) -> bool {
+    let id = c.idents[ident].id;
+    let entry = snapshot(&c.a.s.kbuckets.read()).iter().any(|(k, _, p)| *k == id && !*p);
+    entry || (!c.inexact && c.lookup.as_ref().map(|lk| lk.exact).unwrap_or(true))
+}
+
+/// The handler reports a session with node `ident` holding record `ri`.
+async fn session(c: &mut Ctx<'_, '_>, ident: usize, ri: usize, incoming: bool) {
+    let before = snapshot(&c.a.s.kbuckets.read());
+    let enr = c.recs.list[ri].enr.clone();
+    let sock = contactable(c.mode, &enr).unwrap_or(sock4([10, 0, 0, 99], 1));
+    let dir = if incoming { ConnectionDirection::Incoming } else { ConnectionDirection::Outgoing };
+    c.a.inject(HandlerOut::Established(enr.clone(), sock, dir)).await;
+    let evs = c.a.events();
+    let id = c.idents[ident].id;
+    let inserted = evs.iter().any(|e| matches!(e, Event::NodeInserted { node_id, replaced: None } if node_id.raw() == id));
+    c.absorb();
+    let vid = c.recs.list[ri].vid;
+    c.hist.add("c12:op_established");
+    c.record(&before, format!("XEst {} {}", vid, coq_bool(incoming)), vec![inserted as u64], "established", Some(id), &[ri]);
+}
+
+/// The answer to outstanding request `oi` of the running lookup arrives: one NODES packet with the
+/// records `offered` (all at requested distances). Returns the requests the service sent in reaction.
+async fn nodes_answer(c: &mut Ctx<'_, '_>, oi: usize, offered: &[usize]) -> Vec<usize> {
+    let before = snapshot(&c.a.s.kbuckets.read());
+    let (rid, src, addr) = (c.outstanding[oi].id.clone(), c.outstanding[oi].ident, c.outstanding[oi].addr.clone());
+    let src_id = c.idents[src].id;
+    let nodes: Vec<Enr> = offered.iter().map(|i| c.recs.list[*i].enr.clone()).collect();
+    c.a.inject(HandlerOut::Response(addr, Box::new(Response { id: rid, body: ResponseBody::Nodes { total: 1, nodes } }))).await;
+    let _ = c.a.events();
+    c.outstanding[oi].kind = ReqKind::Ping; // consumed (never used again)
+    c.outstanding[oi].id = RequestId(vec![]);
+    c.track_discovered(&before, &src_id, offered);
+    let new = c.absorb();
+    let vs: Vec<String> = offered.iter().map(|i| c.recs.list[*i].vid.to_string()).collect();
+    c.hist.add("c12:op_discovered");
+    c.record(&before, format!("XDisc {} {}", coq_hex(&src_id), coq_list(&vs)), vec![], "discovered", None, offered);
+    new
+}
+
+/// Outstanding request `oi` fails (timeout).
+async fn request_fails(c: &mut Ctx<'_, '_>, oi: usize) -> Vec<usize> {
+    let before = snapshot(&c.a.s.kbuckets.read());
+    let (rid, src) = (c.outstanding[oi].id.clone(), c.outstanding[oi].ident);
+    let src_id = c.idents[src].id;
+    c.a.inject(HandlerOut::RequestFailed(rid, RequestError::Timeout)).await;
+    c.outstanding[oi].id = RequestId(vec![]);
+    let new = c.absorb();
+    c.hist.add("c12:op_failure");
+    c.record(&before, format!("XFailure {}", coq_hex(&src_id)), vec![], "failure", None, &[]);
+    new
+}
+
+/// Node `ident` (a table entry) announces sequence number `seq` in a PING; the service asks it for its
+/// record (FINDNODE [0], outside of any lookup) and the node answers with `spec`. False: the service did
+/// not ask.
+async fn enr_refresh(c: &mut Ctx<'_, '_>, ident: usize, seq: u64, spec: RecSpec) -> bool {
+    let id = c.idents[ident].id;
+    let before = snapshot(&c.a.s.kbuckets.read());
+    let sock = before.iter().find(|x| x.0 == id).and_then(|x| contactable(c.mode, &x.1)).unwrap_or(sock4(v4_host(ident).0, 30303));
+    let addr = NodeAddress { socket_addr: sock, node_id: NodeId::new(&id) };
+    c.a.inject(HandlerOut::Request(addr, Box::new(Request { id: RequestId(vec![9, 9]), body: RequestBody::Ping { enr_seq: seq } }))).await;
+    let new = c.absorb();
+    let req = new.iter().cloned().find(|k| c.outstanding[*k].kind == ReqKind::EnrRequest && c.outstanding[*k].ident == ident);
+    c.hist.add("c12:op_ping_request");
+    c.record(&before, format!("XPing {} {}", coq_hex(&id), seq), vec![req.is_some() as u64], "ping", None, &[]);
+    let oi = match req {
+        Some(oi) => oi,
+        None => return false,
+    };
+    let before = snapshot(&c.a.s.kbuckets.read());
+    let o = c.outstanding.remove(oi);
+    let ri = c.recs.get(&spec);
+    let enr = c.recs.list[ri].enr.clone();
+    c.a.inject(HandlerOut::Response(o.addr.clone(), Box::new(Response { id: o.id.clone(), body: ResponseBody::Nodes { total: 1, nodes: vec![enr] } }))).await;
+    c.absorb();
+    let _ = c.a.events();
+    let vid = c.recs.list[ri].vid;
+    c.hist.add("c12:op_enr_update_answer");
+    c.record(&before, format!("XDisc {} [{}]", coq_hex(&id), vid), vec![], "discovered", None, &[ri]);
+    true
+}
+
+/// The lookup's requests that are still outstanding (a request the service sent while the harness was
+/// busy with another event is found here).
+fn open_lookup_requests(c: &Ctx<'_, '_>) -> Vec<usize> {
+    (0..c.outstanding.len()).filter(|i| c.outstanding[*i].kind == ReqKind::FindNode && !c.outstanding[*i].id.0.is_empty() && c.outstanding[*i].ident != usize::MAX).collect()
+}
+
+/// Drives the running lookup to its end: every outstanding request of it fails.
+async fn fail_lookup_requests(c: &mut Ctx<'_, '_>, mut queue: Vec<usize>) {
+    let mut guard = 0;
+    while let Some(oi) = queue.first().cloned() {
+        queue.remove(0);
+        guard += 1;
+        if guard > 120 {
+            break;
+        }
+        if c.outstanding[oi].kind != ReqKind::FindNode || c.outstanding[oi].id.0.is_empty() || c.outstanding[oi].ident == usize::MAX {
+            continue;
+        }
+        let new = request_fails(c, oi).await;
+        queue.extend(new);
+        if queue.is_empty() {
+            queue = open_lookup_requests(c);
+        }
+    }
+}
+
+/// Polls the lookup's future once more and closes the harness-side tracking.
+async fn end_lookup(c: &mut Ctx<'_, '_>, handle: tokio::task::JoinHandle<Result<Vec<Enr>, discv5::QueryError>>) {
+    settle().await;
+    if handle.is_finished() {
+        let n = handle.await.ok().and_then(|r| r.ok()).map(|v| v.len()).unwrap_or(0);
+        c.hist.add("c12:lookup_finished");
+        c.lookup_ended(Some(n));
+    } else {
+        c.hist.add("c12:lookup_left_running");
+        handle.abort();
+        c.lookup_ended(None);
+    }
+    c.outstanding.retain(|o| !o.id.0.is_empty());
+}
+
+/// Scripted opening (any IP mode, any table filter but reject-all): who-are-you queries and lookup
+/// requests while the records the table holds and the records a running lookup holds differ.
+///  1. sessions with five nodes (records of seq 2);
+///  2. who-are-you queries about a node nobody knows and about an entry;
+///  3. a lookup starts (its query copies the entries' records); a who-are-you query about the unknown
+///     node arrives from the socket address one of the lookup's requests is in flight to;
+///  4. a session report renews the record of an entry the lookup has not asked yet (seq 5) and another
+///     one admits a sixth node (seq 5); who-are-you queries about both;
+///  5. the first asked peer answers with stale records (seq 1) of these two nodes and the record of a
+///     node that is no entry; who-are-you queries about all three;
+///  6. the other requests fail: the lookup asks the remaining candidates and ends; a last who-are-you
+///     query about the node only the lookup knew.
+/// A step that cannot be set up ends the opening (never a failure).
+async fn lookup_opening(c: &mut Ctx<'_, '_>, actors: &[usize], rng: &mut Rng) {
+    let idents = c.idents;
+    let mode = c.mode;
+    c.hist.add("c12:lookup_opening_attempted");
+    let (entries, unknown) = (&actors[1..6], actors[11]);
+    let own = |i: usize, n: usize| contactable(mode, &build_enr(&idents[i], &opening_rec(mode, n, i, 1))).unwrap_or(sock4([10, 0, 9, 9], 4444));
+    for (n, i) in entries.iter().enumerate() {
+        let ri = c.recs.get(&opening_rec(mode, n, *i, 2));
+        session(c, *i, ri, n % 2 == 1).await;
+    }
+    let in_table = |c: &Ctx<'_, '_>, i: usize| snapshot(&c.a.s.kbuckets.read()).iter().any(|(k, _, p)| *k == idents[i].id && !*p);
+    if !entries.iter().all(|i| in_table(c, *i)) {
+        c.hist.add("c12:lookup_opening_ended_sessions_not_admitted");
+        return;
+    }
+    who_are_you(c, unknown, own(unknown, 11), "unknown_node").await;
+    who_are_you(c, entries[0], own(entries[0], 0), "entry").await;
+    // 3.
+    let target = {
+        let b = rng.bytes(32);
+        let mut t = [0u8; 32];
+        t.copy_from_slice(&b);
+        t
+    };
+    c.lookup_started(&target);
+    let handle = tokio::spawn(c.a.s.discv5.find_node(NodeId::new(&target)));
+    settle().await;
+    let mut queue = c.absorb();
+    queue.retain(|oi| c.outstanding[*oi].kind == ReqKind::FindNode && c.outstanding[*oi].ident != usize::MAX);
+    if queue.is_empty() {
+        c.hist.add("c12:lookup_opening_ended_no_request");
+        end_lookup(c, handle).await;
+        return;
+    }
+    // the request that will be answered, the node admitted during the lookup and the node only the lookup
+    // hears of: the records of an answer must lie at the distances (from the answering peer) the request
+    // asked for
+    let spare = &actors[6..11];
+    let on_distance = |c: &Ctx<'_, '_>, oi: usize, i: usize| c.outstanding[oi].distances.contains(&log2dist(&idents[c.outstanding[oi].ident].id, &idents[i].id));
+    let best = (0..queue.len()).max_by_key(|q| (spare.iter().filter(|i| on_distance(c, queue[*q], **i)).count().min(2), queue.len() - *q)).unwrap_or(0);
+    let first = queue.remove(best);
+    queue.insert(0, first);
+    let mut roles: Vec<usize> = spare.iter().cloned().filter(|i| on_distance(c, first, *i)).collect();
+    roles.extend(spare.iter().cloned().filter(|i| !on_distance(c, first, *i)));
+    let (fresh, rumour) = (roles[0], roles[1]);
+    let in_flight_sock = c.outstanding[queue[0]].addr.socket_addr;
+    who_are_you(c, unknown, in_flight_sock, "unknown_node_from_address_of_request_in_flight").await;
+    // 4.
+    let asked: Vec<usize> = queue.iter().map(|oi| c.outstanding[*oi].ident).collect();
+    let renewed = entries.iter().cloned().filter(|i| !asked.contains(i)).max_by_key(|i| on_distance(c, first, *i));
+    if let Some(x) = renewed {
+        let n = entries.iter().position(|i| *i == x).unwrap();
+        let ri = c.recs.get(&opening_rec(mode, n, x, 5));
+        session(c, x, ri, true).await;
+        queue.extend(c.absorb());
+        who_are_you(c, x, own(x, n), "entry_renewed_during_lookup").await;
+    }
+    {
+        let ri = c.recs.get(&opening_rec(mode, 6, fresh, 5));
+        session(c, fresh, ri, true).await;
+        queue.extend(c.absorb());
+        who_are_you(c, fresh, own(fresh, 6), "entry_admitted_during_lookup").await;
+    }
+    // 5. stale records, at the distances the request asked for
+    let oi = queue.remove(0);
+    let src_id = idents[c.outstanding[oi].ident].id;
+    let ds = c.outstanding[oi].distances.clone();
+    let mut offered: Vec<usize> = vec![];
+    let mut stale: Vec<(usize, usize, &str)> = vec![(fresh, 6, "entry_with_stale_record_in_lookup")];
+    if let Some(x) = renewed {
+        stale.push((x, entries.iter().position(|i| *i == x).unwrap(), "entry_renewed_with_stale_record_in_answer"));
+    }
+    stale.push((rumour, 8, "node_known_to_lookup_only"));
+    stale.retain(|(i, _, _)| ds.contains(&log2dist(&src_id, &idents[*i].id)));
+    for (i, n, _) in &stale {
+        offered.push(c.recs.get(&opening_rec(mode, *n, *i, 1)));
+    }
+    if offered.is_empty() {
+        c.hist.add("c12:lookup_opening_no_record_at_a_requested_distance");
+    }
+    let new = nodes_answer(c, oi, &offered).await;
+    queue.extend(new);
+    for (i, n, tag) in &stale {
+        who_are_you(c, *i, own(*i, *n), tag).await;
+    }
+    // 6.
+    fail_lookup_requests(c, queue).await;
+    end_lookup(c, handle).await;
+    who_are_you(c, rumour, own(rumour, 8), "node_known_to_ended_lookup_only").await;
+    c.hist.add("c12:lookup_opening_full_scenario");
+}
+
+/// Scripted opening (any IP mode, any table filter but reject-all): a full bucket with a candidate in
+/// its pending slot, then who-are-you queries about a node of that bucket nobody knows, about the
+/// candidate and about an entry.
+async fn full_bucket_opening(c: &mut Ctx<'_, '_>) {
+    let idents = c.idents;
+    let mode = c.mode;
+    let local_id = idents[c.local].id;
+    c.hist.add("c12:full_bucket_opening_attempted");
+    let mut by_d: std::collections::BTreeMap<u64, Vec<usize>> = Default::default();
+    for (i, x) in idents.iter().enumerate() {
+        if i != c.local && x.id != local_id {
+            by_d.entry(log2dist(&local_id, &x.id)).or_default().push(i);
+        }
+    }
+    let big = match by_d.iter().max_by_key(|(d, v)| (v.len(), **d)) {
+        Some((_, v)) => v.clone(),
+        None => return,
+    };
+    if big.len() < 18 {
+        c.hist.add("c12:full_bucket_opening_skipped_too_few_identities");
+        return;
+    }
+    for (n, i) in big.iter().take(16).enumerate() {
+        let before = snapshot(&c.a.s.kbuckets.read());
+        let ri = c.recs.get(&opening_rec(mode, n, *i, 1));
+        let enr = c.recs.list[ri].enr.clone();
+        let code = add_code(c.a.s.discv5.add_enr(enr));
+        let vid = c.recs.list[ri].vid;
+        c.hist.add(&format!("c12:op_add_enr_{}", code));
+        c.record(&before, format!("XAdd {}", vid), vec![code], "add_enr", Some(idents[*i].id), &[ri]);
+        if code != 0 {
+            c.hist.add("c12:full_bucket_opening_ended_add_refused");
+            return;
+        }
+    }
+    let cand = big[16];
+    let ri = c.recs.get(&opening_rec(mode, 16, cand, 1));
+    session(c, cand, ri, false).await;
+    bucket_who_queries(c, cand, big[17], big[3]).await;
+    c.hist.add("c12:full_bucket_opening_full_scenario");
+}
+
+/// Who-are-you queries about `stranger` (a node of the candidate's bucket nobody knows), about the
+/// pending candidate itself and about an entry of that bucket.
+async fn bucket_who_queries(c: &mut Ctx<'_, '_>, cand: usize, stranger: usize, entry: usize) {
+    let cand_id = c.idents[cand].id;
+    if snapshot(&c.a.s.kbuckets.read()).iter().any(|(k, _, pending)| *k == cand_id && *pending) {
+        c.hist.add("c12:who_queries_with_candidate_pending");
+    }
+    let own = |i: usize| sock4(v4_host(i).0, 30303);
+    who_are_you(c, stranger, own(stranger), "stranger_of_bucket_with_candidate").await;
+    who_are_you(c, cand, own(cand), "pending_candidate").await;
+    who_are_you(c, entry, own(entry), "entry_of_full_bucket").await;
+}
+
+/// Scripted end of the IP-limit opening (dual stack, IP limiting on): ENR refreshes (the peer announces a
+/// higher sequence number, the service asks for its record outside of any lookup) whose answers keep
+/// the contactable IPv6 socket and change only the IPv4 part of the record - the part the /24 limits
+/// look at:
+///  a. an entry without IPv4 address moves into 10.0.0.0/24, of which the table may hold 10 nodes already;
+///  b. three entries of one bucket without IPv4 address move into 10.0.2.0/24 one after the other.
+/// The C16 monitor of `record` runs after every step.
+async fn refresh_tail(c: &mut Ctx<'_, '_>) {
+    if c.mode != IpMode::DualStack || !c.ip_limit {
+        return;
+    }
+    let idents = c.idents;
+    let local_id = idents[c.local].id;
+    // entries (not pending) with only an IPv6 socket, per bucket
+    let v6_only = |c: &Ctx<'_, '_>| -> std::collections::BTreeMap<u64, Vec<(usize, Enr)>> {
+        let mut m: std::collections::BTreeMap<u64, Vec<(usize, Enr)>> = Default::default();
+        for (k, e, pending) in snapshot(&c.a.s.kbuckets.read()) {
+            if !pending && e.ip4().is_none() && e.udp6_socket().is_some() {
+                if let Some(i) = idents.iter().position(|x| x.id == k) {
+                    m.entry(log2dist(&local_id, &k)).or_default().push((i, e));
+                }
+            }
+        }
+        m
+    };
+    let moved = |e: &Enr, i: usize, v4: [u8; 4]| RecSpec {
+        ident: i,
+        seq: e.seq() + 1,
+        udp4: Some((v4, 30303)),
+        udp6: e.udp6_socket().map(|s| (s.ip().octets(), s.port())),
+        size: 0,
+    };
+    // a.
+    let in24 = snapshot(&c.a.s.kbuckets.read()).iter().filter(|x| !x.2 && x.1.ip4().map(|ip| ip.octets()[..3] == [10, 0, 0]).unwrap_or(false)).count();
+    c.hist.add(if in24 >= 10 { "c12:refresh_tail_table_at_subnet_limit" } else { "c12:refresh_tail_table_below_subnet_limit" });
+    if let Some((i, e)) = v6_only(c).values().max_by_key(|v| v.len()).and_then(|v| v.last().cloned()) {
+        let spec = moved(&e, i, v4_host(i).0);
+        if enr_refresh(c, i, e.seq() + 1, spec).await {
+            let id = idents[i].id;
+            c.hist.add(match snapshot(&c.a.s.kbuckets.read()).iter().find(|x| x.0 == id) {
+                None => "c12:refresh_into_crowded_subnet_entry_dropped",
+                Some((_, r, _)) if r.seq() == e.seq() => "c12:refresh_into_crowded_subnet_refused",
+                Some(_) => "c12:refresh_into_crowded_subnet_stored",
+            });
+        }
+    }
+    // b.
+    if let Some(v) = v6_only(c).values().max_by_key(|v| v.len()).cloned() {
+        for (n, (i, e)) in v.iter().take(3).enumerate() {
+            let spec = moved(e, *i, [10, 0, 2, (*i % 250) as u8 + 1]);
+            if enr_refresh(c, *i, e.seq() + 1, spec).await {
+                let id = idents[*i].id;
+                c.hist.add(&format!(
+                    "c12:refresh_number_{}_into_one_subnet_of_a_bucket_{}",
+                    n + 1,
+                    match snapshot(&c.a.s.kbuckets.read()).iter().find(|x| x.0 == id) {
+                        None => "entry_dropped",
+                        Some((_, r, _)) if r.seq() == e.seq() => "refused",
+                        Some(_) => "stored",
+                    }
+                ));
+            }
+        }
+    }
 }
 
 fn add_code(r: Result<(), &'static str>) -> u64 {
@@ -432,7 +1087,20 @@ pub fn run_case(idents: &[Ident], idx: u64, rng: &mut Rng, thorough: bool, hist:
         // stack mode (records with only an IPv6 address are contactable and outside the /24 rules)
         // with the accept-all table filter
         let scripted = FORCE_IP_LIMIT.load(std::sync::atomic::Ordering::SeqCst) && idx % 4 == 1;
-        let (mode_n, filter_n) = if scripted { (2, 0) } else { (mode_n, filter_n) };
+        // the other scripted openings (any IP mode; a table filter that rejects everything is replaced by
+        // accept-all): idx % 4 == 1 without forced IP limiting: a full bucket with a pending candidate and
+        // who-are-you queries; idx % 4 == 3: who-are-you queries and lookup requests around a lookup
+        let opening = match idx % 4 {
+            1 if scripted => 1,
+            1 => 2,
+            3 => 3,
+            _ => 0,
+        };
+        let (mode_n, filter_n) = match opening {
+            1 => (2, 0),
+            2 | 3 => (mode_n, if filter_n == 1 { 0 } else { filter_n }),
+            _ => (mode_n, filter_n),
+        };
         let mode = [IpMode::Ip4, IpMode::Ip6, IpMode::DualStack][mode_n as usize];
         let mut recs = Recs::new(idents);
         // the actors of this case
@@ -470,6 +1138,9 @@ pub fn run_case(idents: &[Ident], idx: u64, rng: &mut Rng, thorough: bool, hist:
             local,
             ip_limit,
             outstanding: vec![],
+            who_answers: vec![],
+            lookup: None,
+            inexact: false,
             steps: vec![],
             failures: vec![],
             now: 0,
@@ -484,8 +1155,16 @@ pub fn run_case(idents: &[Ident], idx: u64, rng: &mut Rng, thorough: bool, hist:
         c.hist.add(&format!("c12:mode_{:?}{}", mode, if from_sockets { "_from_sockets" } else { "" }));
         c.hist.add(&format!("c12:filter_{}", ["accept_all", "reject_all", "reject_subnet", "reject_seq_ge_100"][filter_n as usize]));
         let nsteps = if thorough { rng.range(30, 70) } else { rng.range(18, 40) };
-        if scripted && c.a.alive() {
-            ip_limit_opening(&mut c).await;
+        if c.a.alive() {
+            match opening {
+                1 => {
+                    ip_limit_opening(&mut c).await;
+                    refresh_tail(&mut c).await;
+                }
+                2 => full_bucket_opening(&mut c).await,
+                3 => lookup_opening(&mut c, &actors, rng).await,
+                _ => {}
+            }
         }
         for _ in 0..nsteps {
             if !c.a.alive() {
@@ -501,7 +1180,7 @@ pub fn run_case(idents: &[Ident], idx: u64, rng: &mut Rng, thorough: bool, hist:
                     actors[1 + rng.below(actors.len() as u64 - 1) as usize]
                 }
             };
-            match rng.weighted(&[30, 12, 12, 10, 10, 8, 4, 6, 8, 3]) {
+            match rng.weighted(&[30, 12, 12, 10, 10, 8, 4, 6, 8, 3, 8]) {
                 0 => {
                     // session established
                     let i = pick_actor(rng);
@@ -523,7 +1202,10 @@ pub fn run_case(idents: &[Ident], idx: u64, rng: &mut Rng, thorough: bool, hist:
                     let i = pick_actor(rng);
                     let ri = c.recs.get(&shape(rng, i));
                     let enr = c.recs.list[ri].enr.clone();
-                    let code = add_code(c.a.s.discv5.add_enr(enr));
+                    let code = add_code(c.a.s.discv5.add_enr(enr.clone()));
+                    if code == 0 && contactable(mode, &enr).is_none() {
+                        c.failures.push(("C12".into(), format!("add_enr accepted a record that has no socket the node can contact in IP mode {:?}", mode)));
+                    }
                     let vid = c.recs.list[ri].vid;
                     c.hist.add(&format!("c12:op_add_enr_{}", code));
                     c.record(&before, format!("XAdd {}", vid), vec![code], "add_enr", Some(idents[i].id), &[ri]);
@@ -539,6 +1221,7 @@ pub fn run_case(idents: &[Ident], idx: u64, rng: &mut Rng, thorough: bool, hist:
                         t.copy_from_slice(&b);
                         t
                     };
+                    c.lookup_started(&target);
                     let handle = tokio::spawn(c.a.s.discv5.find_node(NodeId::new(&target)));
                     settle().await;
                     let mut queue: Vec<usize> = c.absorb();
@@ -551,6 +1234,24 @@ pub fn run_case(idents: &[Ident], idx: u64, rng: &mut Rng, thorough: bool, hist:
                             break;
                         }
                         if c.outstanding[oi].kind != ReqKind::FindNode {
+                            continue;
+                        }
+                        // while the lookup runs: the handler asks who some node is (now and then from
+                        // the address a request is in flight to), or reports a session
+                        if rng.chance(1, 5) {
+                            let i = pick_actor(rng);
+                            let sock = if rng.chance(1, 2) { c.outstanding[oi].addr.socket_addr } else { sock4(v4_host(i).0, 30303) };
+                            who_are_you(&mut c, i, sock, "during_lookup").await;
+                        }
+                        if rng.chance(1, 8) {
+                            let i = pick_actor(rng);
+                            let ri = c.recs.get(&shape(rng, i));
+                            let incoming = rng.chance(1, 2);
+                            session(&mut c, i, ri, incoming).await;
+                            c.hist.add("c12:op_established_during_lookup");
+                            queue.extend(c.absorb());
+                        }
+                        if c.outstanding[oi].id.0.is_empty() {
                             continue;
                         }
                         let before = snapshot(&c.a.s.kbuckets.read());
@@ -579,6 +1280,7 @@ pub fn run_case(idents: &[Ident], idx: u64, rng: &mut Rng, thorough: bool, hist:
                             }
                             c.outstanding[oi].kind = ReqKind::Ping; // consumed (never used again)
                             c.outstanding[oi].id = RequestId(vec![]);
+                            c.track_discovered(&before, &src_id, &offered);
                             queue.extend(c.absorb());
                             let vs: Vec<String> = offered.iter().map(|i| c.recs.list[*i].vid.to_string()).collect();
                             c.hist.add("c12:op_discovered");
@@ -590,15 +1292,11 @@ pub fn run_case(idents: &[Ident], idx: u64, rng: &mut Rng, thorough: bool, hist:
                             c.hist.add("c12:op_failure");
                             c.record(&before, format!("XFailure {}", coq_hex(&src_id)), vec![], "failure", None, &[]);
                         }
+                        if queue.is_empty() {
+                            queue = open_lookup_requests(&c);
+                        }
                     }
-                    settle().await;
-                    if !handle.is_finished() {
-                        c.hist.add("c12:lookup_left_running");
-                        handle.abort();
-                    } else {
-                        c.hist.add("c12:lookup_finished");
-                    }
-                    c.outstanding.retain(|o| !o.id.0.is_empty());
+                    end_lookup(&mut c, handle).await;
                 }
                 3 => {
                     // PONG for one of the service's own pings
@@ -693,6 +1391,17 @@ pub fn run_case(idents: &[Ident], idx: u64, rng: &mut Rng, thorough: bool, hist:
                     let vid = c.recs.list[ri].vid;
                     c.hist.add("c12:op_enr_update_answer");
                     c.record(&before, format!("XDisc {} [{}]", coq_hex(&idents[o.ident].id), vid), vec![], "discovered", None, &[ri]);
+                }
+                10 => {
+                    // the handler asks who some node is: from the node's own address, from the address
+                    // a request of the service is in flight to, or from some other address
+                    let i = pick_actor(rng);
+                    let sock = match rng.below(3) {
+                        0 => sock4(v4_host(i).0, 30303),
+                        1 if !c.outstanding.is_empty() => c.outstanding[rng.below(c.outstanding.len() as u64) as usize].addr.socket_addr,
+                        _ => sock4([10, 0, 9, 9], 4444),
+                    };
+                    who_are_you(&mut c, i, sock, "random").await;
                 }
                 _ => {
                     // the ping interval elapses: connected peers are pinged (no table operation; the
